@@ -54,6 +54,11 @@ def opWSEQ (args obs : List String) : Option DecOut :=
       | none => { acc with corr := acc.corr ++ [s!"unparsable op {p.1}"] }
       | some op =>
         let (st', out) := step acc.st op
+        -- write-fault kind `z`: the peer's normal closure reaches the reader while the frame write is failing — for the
+        -- model the failing send followed by the listener's normal end
+        let endedInWrite := res.endsWith "+ended"
+        let res := if endedInWrite then (res.dropRight 6) else res
+        let st' := if endedInWrite then (step st' (.listenerEnds .normal)).1 else st'
         let want := s!"{wsOutStr out};{wsSnapshot acc.st st'}"
         let goSnap := ";".intercalate (xs.filterMap atomStr)
         let go := s!"{res};{goSnap}"
